@@ -44,6 +44,11 @@ CHECKS = {
     technique='explicit-state BFS (dedup on the full attribute snapshot of the whole store) over Set/Modify/DeleteAttribute sequences on the real engine, judged by an attribute-store model on a raw-SQLite snapshot, a whole-store frame condition and GetAttributes agreement',
     text='245 symbolic actions - Set/Modify/DeleteAttribute in the 1.x index form (index absent, 0, 1, last+1, -1) and the 2.0 current/new/reference form, values new / equal to current / duplicate of a sibling, for Name, Object Group, Application Specific Information and Sensitive, one form each for every other attribute name in the rule table and a custom name, by owner and non-owner - are applied in every state reached within depth 2 (quick) / 3 (thorough) from a store holding the target and a bystander with identical attribute values (all 7 object kinds as target; other kinds depth 1 / 2). In every state the nine never-alterable attributes and owners are unchanged; a successful call must address an existing, alterable instance and leave exactly the model\'s result on the target, nothing else changed on any object, and GetAttributes must agree; a failed call must leave the raw database identical.',
     note='Values the library cannot construct or refuses to encode for the version are skipped and counted. Index -1 and out-of-range indices are taken to address no instance. Canonical state = full attribute snapshot (no abstraction).'),
+ 'C10': dict(
+    category='model_checking', design_ref='DESIGN.md 4/C10, 2.4',
+    technique='stateless exploration of thread schedules of the real code under a controlled scheduler (CHESS-style iterative preemption bounding, bound 2; schedule points at lock operations, engine call/line trace events and session accesses to engine state) with a brute-force linearizability oracle',
+    text='7 (quick) / 10 (thorough) harnesses of 2-4 real KmipSession threads with different identities and protocol versions, 1-2 requests each, share one real KmipEngine whose lock is replaced by a scheduler-aware re-entrant lock; only one thread runs at a time and every schedule with at most 2 preemptions (thorough: also with line-level schedule points, and bound 3 for two-thread harnesses) is executed. For each complete schedule the per-client responses and the final raw database must equal those of some serial order of the requests, consistent with each client\'s own order, executed on a fresh engine; deadlock, escaping exceptions and missing responses are violations; a failing schedule is replayed twice and must reproduce exactly before it is reported. Workloads force collisions on every per-request field of the shared engine (identity/owner, protocol version, attribute policy, ID placeholder, data session).',
+    note='Preemption inside one source line and C-level races in SQLite/OpenSSL are not modelled; no race detector for Python exists in the image, so line-granular points on engine code are the substitute. The call event of the lock wrapper itself is not a separate point. os.urandom is a length-determined constant and time is frozen during a harness.'),
 }
 
 NOT_YET = {}
